@@ -24,6 +24,7 @@ type NameResult struct {
 	Instances int
 	Status    string // discharged failed undecided
 	Failing   *ObligResult
+	Fails     []*ObligResult
 	Time      float64
 	Solvers   map[string]int
 	Func      string
@@ -81,6 +82,7 @@ func aggregate(rs []ObligResult) []*NameResult {
 		switch r.Res.Status {
 		case "unsat":
 		case "sat":
+			n.Fails = append(n.Fails, r)
 			if n.Status != "failed" {
 				n.Status = "failed"
 				n.Failing = r
